@@ -470,7 +470,7 @@ func (e *Enc) typeFact(v string, t types.Type, st *State) string {
 		return fmt.Sprintf("(and (<= 0 (s_off %s)) (<= 0 (s_len %s)) (<= (s_len %s) (s_cap %s)) (<= (+ (s_off %s) (s_cap %s)) 4611686018427387904) (<= 0 (s_arr %s)) (<= (s_arr %s) %s) (=> (= (s_arr %s) 0) (= (s_cap %s) 0)))",
 			v, v, v, v, v, v, v, v, st.alloc, v, v)
 	case *types.Interface:
-		return fmt.Sprintf("(and (<= 0 (i_tag %s)) (=> (= (i_tag %s) 0) (= (i_ref %s) 0)) (<= (i_ref %s) %s))", v, v, v, v, st.alloc)
+		return fmt.Sprintf("(and (<= 0 (i_tag %s)) (=> (= (i_tag %s) 0) (= (i_ref %s) 0)) (<= 0 (i_ref %s)) (<= (i_ref %s) %s))", v, v, v, v, v, st.alloc)
 	case *types.Struct:
 		si := e.structInfoOf(t)
 		var fs []string
